@@ -27,6 +27,9 @@ CORES = {
     "send": ("cq = make(chan int64)\np(1)\ncq <- 1", 0),
     "send-full": ("cq = make(chan int64, 1)\ncq <- 1\np(1)\ncq <- 2", 0),
     "range-chan": ("cq = make(chan int64)\np(1)\nfor vq in cq {\n p(2)\n}", 0),
+    # two script threads contend for one buffered channel while a third drains / fills it for a while and then stops: both end up blocked
+    "send-race": ("cq = make(chan int64, 1)\ngo func() {\n for iq = 0; iq < 3000; iq++ {\n  <-cq\n }\n}()\ngo func() {\n for {\n  cq <- 1\n }\n}()\nfor {\n cq <- 2\n}", 2),
+    "recv-race": ("cq = make(chan int64, 1)\ngo func() {\n for iq = 0; iq < 3000; iq++ {\n  cq <- iq\n }\n}()\ngo func() {\n for {\n  <-cq\n }\n}()\nfor {\n xq = <-cq\n}", 2),
     "ping-pong": ("aq = make(chan int64)\nbq = make(chan int64)\ngo func() {\n for {\n  bq <- (<-aq) + 1\n }\n}()\nfor {\n aq <- 1\n p(<-bq)\n}", 1),
 }
 
@@ -53,19 +56,32 @@ WRAPS = {
     "if": lambda c: "if true {\n%s\n}" % ind(c),
     "else": lambda c: "if false {\n p(56)\n} else {\n%s\n}" % ind(c),
     "switch": lambda c: "switch 1 {\ncase 1:\n%s\n}" % ind(c),
+    # the function is defined by an EARLIER run (plain Execute, background context) and only called by the cancellable run
+    "xfn0": lambda c: ("func x0() {\n%s\n}" % ind(c), "x0()"),
+    "xfn2": lambda c: ("func x2(a, b) {\n%s\n}" % ind(c), "x2(1, 2)"),
+    "xfn5": lambda c: ("func x5(a, b, c, d, e) {\n%s\n}" % ind(c), "x5(1, 2, 3, 4, 5)"),
+    "xfnvar": lambda c: ("func xv(a...) {\n%s\n}" % ind(c), "xv(1, 2)"),
+    "xfnval": lambda c: ("xf = func(a, b, c, d, e, f) {\n%s\n}" % ind(c), "xf(1, 2, 3, 4, 5, 6)"),
     "go": lambda c: "dq = make(chan int64)\ngo func() {\n%s\n dq <- 1\n}()\n<-dq" % ind(c),
 }
 THREADS = {"go": 1}
+
+
+def wrap(wn, core):
+    """-> (prelude run first by a plain Execute, source of the cancellable run)"""
+    w = WRAPS[wn](core)
+    return w if isinstance(w, tuple) else ("", w)
 
 
 def programs(ctx):
     rng = random.Random(ctx.seed)
     out = []
     for cn, (core, th) in CORES.items():
-        out.append({"id": "%s|bare" % cn, "src": core + "\np(99)", "threads": th})
-        for wn, w in WRAPS.items():
-            out.append({"id": "%s|%s" % (cn, wn), "src": w(core) + "\np(99)", "threads": th + THREADS.get(wn, 0)})
-    pairs = [(a, b) for a in WRAPS for b in WRAPS]
+        out.append({"id": "%s|bare" % cn, "src": core + "\np(99)", "pre": "", "threads": th})
+        for wn in WRAPS:
+            pre, src = wrap(wn, core)
+            out.append({"id": "%s|%s" % (cn, wn), "src": src + "\np(99)", "pre": pre, "threads": th + THREADS.get(wn, 0)})
+    pairs = [(a, b) for a in WRAPS for b in WRAPS if not b.startswith("xfn")]
     rng.shuffle(pairs)
     npairs = 40 if ctx.quick() else 160
     cores = list(CORES.items())
@@ -76,7 +92,8 @@ def programs(ctx):
                     s = s.replace(nm, nm + tag)
                 return s
             inner = ren(WRAPS[b](core), "i")
-            out.append({"id": "%s|%s|%s" % (cn, a, b), "src": WRAPS[a](inner) + "\np(99)", "threads": th + THREADS.get(a, 0) + THREADS.get(b, 0)})
+            pre, src = wrap(a, inner)
+            out.append({"id": "%s|%s|%s" % (cn, a, b), "src": src + "\np(99)", "pre": pre, "threads": th + THREADS.get(a, 0) + THREADS.get(b, 0)})
     return out
 
 
@@ -111,6 +128,9 @@ def run(ctx):
             last = o[-1]["id"] if o else "?"
             vlib.violation(ctx, "the process running cancelled scripts died (rc=%d) after %s: %s" % (rc, last, err[:300]), {"kind": "cancel-death", "after": last, "stderr": err})
     byid = {p["id"]: p for p in progs}
+    pre = [o for o in obs if (o.get("err") or "").startswith("PRELUDE:")]
+    if pre:
+        raise Broken("prelude of %s failed: %s" % (pre[0]["id"], pre[0]["err"]))
     for o in obs:
         o["latency_whole_ms"] = int(o["latency_ms"]) if o["returned"] else 10**6
     op = os.path.join(ctx.work, "cancel_obs.ndjson")
